@@ -24,13 +24,13 @@ DESCR = {
  'C04': ('V', 'BigNat oracle; Trace_C04 validates bigint arithmetic via identities, conversions digit for digit, literal classes, round-half-even doubles, double print/parse round trips incl. every binary64 exponent x edge significands'),
  'C05': ('G + V', 'ApiOutcome protocol; inputs of all other generators + truncations / substitutions through every decoder / compiler entry point, a CBOR tag family (typed / multi-dimensional arrays, bignums, decimal fractions with boundary arguments), and values x option sets through 12 encoder entry points, under ASan+UBSan+LSan with a CPU-time watchdog (non-termination); sampled outcome traces validated by Trace_C05'),
  'C06': ('V', 'BinModel universe x 4 formats x routes; Trace_C06: the reference decoder reads the output completely to the documented image and the library reads it back; stringref family; long-length family (BinHeads: header forms at 2^8 / 2^15 / 2^16, Trace_C06big); semantic-tag family (BinTags / Trace_C06tags: bignum, decimal fraction, bigfloat, epoch tags, base-N hints x 4 formats, documented image per format)'),
- 'C07': ('G', 'Cbor / Msgpack / Ubjson / Bson reference decoders: every byte string with 2 exhaustive leading bytes + representative later bytes, token sequences, length-boundary representatives, long-length header forms (exact / short / bad length field); verdict and value predicted'),
+ 'C07': ('G', 'Cbor / Msgpack / Ubjson / Bson reference decoders: every byte string with 2 exhaustive leading bytes + representative later bytes, token sequences, length-boundary representatives, long-length header forms (exact / short / bad length field), [tag(item), sibling] for every tag head x content kind (a tag applies to one item; non-transforming tags are transparent); verdict and value predicted'),
  'C08': ('V', 'Events PDA: every complete event sequence <= MaxEv x 5 encoders (declared lengths respected / violated); Trace_C08 re-decodes the output with the reference decoders / JsonText; transcoding of all accepted C07 inputs; tagged-event family (Trace_C08tags: every scalar event x semantic tag x 5 encoders, output must be well-formed in the target format or an error reported)'),
- 'C09': ('G per transition + V', 'Container: every edge reachable within MaxHist operations (VIEW + ACTION_CONSTRAINT), hinted overloads at every hint position, json and ojson; ValueLaws over 54 x 54 descriptors (compare is a total order consistent with ==, hash, swap)'),
- 'C10': ('G', 'Limits: 20 opening paths x limits x depths around the limit; encoders fed by events and through dump / encode_X, also after closed siblings; UBJSON max_items; claimed lengths vs an allocation meter for json and typed decode; deep values on a 1 MiB stack; sibling families'),
- 'C11': ('G', 'JsonSchema validator (validated against the official suite and python-jsonschema on the whole space): grammar-built schemas per dialect incl. annotation scoping and dependency maps x steered instances'),
- 'C12': ('G', 'JsonPath evaluator (validated against the jsoncons jsonpath reference data): segments, slices, filters (and, where the functions family is in, built-in functions and arithmetic) x documents x notations x result options x 7 entry points'),
- 'C13': ('G', 'Jmespath evaluator (validated against the JMESPath compliance corpus): expression trees x documents, functions x typed argument tuples, slices, sort stability'),
+ 'C09': ('G per transition + V', 'Container: every edge reachable within MaxHist operations (VIEW + ACTION_CONSTRAINT) incl. erase by iterator / iterator range on arrays and objects, hinted overloads at every hint position, json and ojson; ValueLaws over 59 x 59 descriptors (compare is a total order consistent with ==, hash, swap)'),
+ 'C10': ('G', 'Limits: 20 opening paths x limits x depths around the limit; encoders fed by events and through dump / encode_X, also after closed siblings; UBJSON max_items; claimed lengths vs an allocation meter for json and typed decode, from a vector, an iterator range and a stream (header at offset 0 and ending at / next to a 16384-byte chunk boundary); deep values on a 1 MiB stack; sibling families'),
+ 'C11': ('G', 'JsonSchema validator (validated against the official suite and python-jsonschema on the whole space): grammar-built schemas per dialect incl. annotation scoping, dependency maps and exact decimals (fractional bounds, divisors, enum / const spellings) x steered instances; Uri (RFC 3986, validated on the RFC examples): base URI x nested $id x reference with the identifier addressed and near misses, JSON Pointer fragments with ~ escapes and percent-encoding'),
+ 'C12': ('G', 'JsonPath evaluator (validated against the jsoncons jsonpath reference data): segments, slices, unions incl. current- and root-anchored path members, filters (and, where the functions family is in, built-in functions and arithmetic) x documents x notations x result options x 7 entry points'),
+ 'C13': ('G', 'Jmespath evaluator (validated against the JMESPath compliance corpus): expression trees x documents, functions x typed argument tuples, slices, sort stability, exact decimals (abs / ceil / floor / avg / sum / sort / comparisons / to_number over fractions)'),
  'C14': ('G', 'JsonPointer: all pointer strings <= n over 7 chars; (doc, tokens, op, create_if_missing); flatten / unflatten'),
  'C15': ('G + model + V', 'JsonPatch: every op sequence <= MaxOps extended while it succeeds (failure at every position); MC_C15impl refinement of the undo-log loop; diff law'),
  'C16': ('G + V', 'MergePatch: all (target, patch) pairs of the depth-2 universe; from_diff traces validated by Trace_C16'),
